@@ -1,4 +1,4 @@
-\* quick tier, exhaustive: every well-formed list over instants 0..4 x instants x chains x first-element forms x answer scripts (one repetition), two calls
+\* quick tier, exhaustive: every well-formed list over instants 0..4 x instants x chains x first-element forms x answer scripts (one repetition)
 CONSTANTS
   ShardLists <- MCAllLists
   Instants = {0, 1, 2, 3, 4}
@@ -12,7 +12,7 @@ CONSTANTS
   UndecodableBodies = {"notJSON", "wrongType"}
   AfterRetryStatuses = {200, 400}
   MaxAnswers = 2
-  MaxCalls = 2
+  MaxCalls = 1
   MaxMult = 8
   RootAnswers = {}
   CtxMayEnd = FALSE
